@@ -297,8 +297,11 @@ def _cmp(pa, pb, s, tol):
         elif sk == "1":
             sc = 1.0
         else:
+            # relative to the magnitude of the quantity itself, but never below 1e-6 of the
+            # problem scale: a matrix that has collapsed to ~1e-15 is rounding noise, and
+            # noise has no stable relative difference
             fa = a[np.isfinite(a)]
-            sc = float(np.abs(fa).max()) if fa.size else 1.0
+            sc = max(float(np.abs(fa).max()) if fa.size else 1.0, 1e-6 * s)
         dv = rel_diff(a, b, scale=sc)
         if dv > tol and (worst is None or dv > worst[1]):
             worst = (na, dv)
